@@ -8,8 +8,8 @@
 EXTENDS Allegation, Json, SequencesExt
 
 Trace == ndJsonDeserialize("trace.ndjson")
-VARIABLES l, nviol
-tvars == <<l, nviol, lvars>>
+VARIABLES l, nviol, tcur, fz            \* fz[v]: for how many consecutive blocks of this history v has been frozen as guilty
+tvars == <<l, nviol, tcur, fz, lvars>>
 Ev == Trace[l]
 
 Report(name, ok) ==
@@ -36,9 +36,12 @@ StakeAtTally(v) == Get(Ev.stakePre, v) + Get(Ev.stakeDelta, v)
 RECURSIVE SumPen(_)
 SumPen(S) == IF S = {} THEN 0 ELSE LET v == CHOOSE x \in S : TRUE IN Penalty(StakeAtTally(v), Ev.penaltyPct) + SumPen(S \ {v})
 
-TraceInit == l = 1 /\ nviol = 0 /\ AInit
+FzNext == [v \in DOMAIN Ev.frozen |-> IF Ev.frozen[v].status = 2
+                                       THEN (IF Ev.t = tcur /\ v \in DOMAIN fz THEN fz[v] + 1 ELSE 1) ELSE 0]
+TraceInit == l = 1 /\ nviol = 0 /\ tcur = 0 /\ fz = <<>> /\ AInit
 TraceBlock ==
   /\ l <= Len(Trace) /\ l' = l + 1 /\ UNCHANGED lvars
+  /\ tcur' = Ev.t /\ fz' = FzNext
   /\ LET f == Fold(Pre(Ev), Ev.txs, 1, {})
          s == f.s
          need == Required(Ev.activeCount, Ev.votePct)
@@ -59,6 +62,7 @@ TraceBlock ==
                    \A id \in gone : \/ s.req[id].accused \in DOMAIN Ev.verdicts
                                      \/ \E j \in DOMAIN Ev.reqPost : Ev.reqPost[j].accused = s.req[id].accused)
           + Report("GuiltyIsFrozen", \A v \in GuiltyOnes : v \in DOMAIN Ev.newFrozen /\ Ev.newFrozen[v] = 2)
+          + Report("GuiltyLeavesTheSet", \A v \in DOMAIN FzNext : FzNext[v] >= 4 => v \notin ToSet(Ev.active))
           + Report("PenaltyExact", \A v \in GuiltyOnes : Get(Ev.stakePost, v) = StakeAtTally(v) - Penalty(StakeAtTally(v), Ev.penaltyPct))
           + Report("BountyBounded", Ev.bountyPost - Ev.bountyPre - Ev.bountyIn <= SumPen(GuiltyOnes) * Ev.base
                                     /\ Ev.bountyPost - Ev.bountyPre - Ev.bountyIn = (SumPen(GuiltyOnes) * Ev.base * Ev.bountyPct) \div 100)
